@@ -43,8 +43,15 @@ const map<string, double> PREFIX_FACTORS = {{"y", 1.0e-24}, {"z", 1.0e-21}, {"a"
 
 
 string createId() {
-    typedef boost::mt19937::result_type seed_type;
-    static boost::mt19937 ran(static_cast<seed_type>(std::time(0)));
+    // the engine is seeded once per process from the system's entropy source; the time alone is
+    // the same for all processes that start within one second
+    static boost::mt19937 ran = [] {
+        std::random_device rd;
+        std::seed_seq seq{rd(), rd(), rd(), rd(), static_cast<unsigned int>(std::time(0))};
+        boost::mt19937 engine;
+        engine.seed(seq);
+        return engine;
+    }();
     static boost::uuids::basic_random_generator<boost::mt19937> gen(&ran);
     boost::uuids::uuid u = gen();
     return boost::uuids::to_string(u);
